@@ -46,6 +46,22 @@ Proof.
     apply (fits_readings b n Hn E2). Lia.lia.
 Qed.
 
+(* growing the buffer never loses a response, and the capacity decides only WHETHER the message is delivered, never WHAT it is:
+   there is one threshold, |body| + 1, below which every capacity gives [7F] and from which every capacity gives the same message *)
+Theorem c17_monotone_in_capacity : forall e variant payload n n' p p' t b,
+  1 <= n -> n <= n' -> serialising spec_tables variant t -> encode e t payload = Some b ->
+  blen b <= n - 1 ->
+  response_serialize spec_tables e variant payload n p = Ok (msg b) /\
+  response_serialize spec_tables e variant payload n' p' = Ok (msg b).
+Proof. exact (response_serialize_monotone spec_tables). Qed.
+
+Theorem c17_single_threshold : forall e variant payload t b,
+  serialising spec_tables variant t -> encode e t payload = Some b ->
+  forall n p, 1 <= n ->
+    (n < blen b + 1 -> response_serialize spec_tables e variant payload n p = Ok [0x7F]) /\
+    (blen b + 1 <= n -> response_serialize spec_tables e variant payload n p = Ok (msg b)).
+Proof. exact (response_serialize_threshold spec_tables). Qed.
+
 (* known finding F3: the exception class is inhabited - with N = 1 a ClientPin response with no member
    set is the one-byte message [00], which fits, yet the buffer is left as [7F] *)
 Definition f3_value : val :=
@@ -99,6 +115,8 @@ Eval vm_compute in "ASSUMPTIONS c17_parameterless". Print Assumptions c17_parame
 Eval vm_compute in "ASSUMPTIONS c17_prior_independent". Print Assumptions c17_prior_independent.
 Eval vm_compute in "ASSUMPTIONS c17_only_exception". Print Assumptions c17_only_exception.
 Eval vm_compute in "ASSUMPTIONS c17_except". Print Assumptions c17_except.
+Eval vm_compute in "ASSUMPTIONS c17_monotone_in_capacity". Print Assumptions c17_monotone_in_capacity.
+Eval vm_compute in "ASSUMPTIONS c17_single_threshold". Print Assumptions c17_single_threshold.
 Eval vm_compute in "ASSUMPTIONS c17_refuted_at_n1". Print Assumptions c17_refuted_at_n1.
 Eval vm_compute in "ASSUMPTIONS c17_serialising_variants". Print Assumptions c17_serialising_variants.
 Eval vm_compute in "ASSUMPTIONS c17_generated_tables". Print Assumptions c17_generated_tables.
